@@ -79,7 +79,7 @@ var resultNames = map[string]result.Result{"OK": result.ResultOK, "NonRevokable"
 // behaviour classes: good (must succeed), either (not settled), bad (must fail)
 func classOf(b string, n int) string {
 	switch b {
-	case "granted":
+	case "granted", "granted-by-the-other-authority":
 		return "good"
 	case "only-leaf-included":
 		if n == 2 {
